@@ -7,12 +7,15 @@ import (
 
 	"cosmossdk.io/math"
 	sdk "github.com/cosmos/cosmos-sdk/types"
+	banktypes "github.com/cosmos/cosmos-sdk/x/bank/types"
 	minttypes "github.com/cosmos/cosmos-sdk/x/mint/types"
 
 	ammtypes "github.com/elys-network/elys/x/amm/types"
 	aptypes "github.com/elys-network/elys/x/assetprofile/types"
+	burnertypes "github.com/elys-network/elys/x/burner/types"
 	committypes "github.com/elys-network/elys/x/commitment/types"
 	leveragelptypes "github.com/elys-network/elys/x/leveragelp/types"
+	mctypes "github.com/elys-network/elys/x/masterchef/types"
 	oracletypes "github.com/elys-network/elys/x/oracle/types"
 	ptypes "github.com/elys-network/elys/x/parameter/types"
 )
@@ -50,6 +53,7 @@ type SceneOpts struct {
 	LevPerBlock  int64
 	UserFunds    string
 	EdenPerYear  string // masterchef LP incentive (0 = none)
+	BurnEpoch    string // burner epoch identifier ("" = the default, which matches no epoch)
 }
 
 func DefaultScene() SceneOpts {
@@ -100,6 +104,11 @@ func (c *Chain) SetupScene(o SceneOpts) {
 				Provider: c.Addr["feeder"].String(), Timestamp: uint64(ctx.BlockTime().Unix()), BlockHeight: uint64(ctx.BlockHeight())})
 		}
 	}
+	// bank denom metadata as on a live chain (the burner only burns denoms that have metadata)
+	for _, as := range assets {
+		a.BankKeeper.SetDenomMetaData(ctx, banktypes.Metadata{Base: as.Denom, Display: as.Display, Name: as.Display, Symbol: as.Display,
+			DenomUnits: []*banktypes.DenomUnit{{Denom: as.Denom, Exponent: 0}, {Denom: as.Display, Exponent: uint32(as.Dec)}}})
+	}
 	for _, d := range []string{ptypes.Eden, ptypes.EdenB} {
 		a.AssetprofileKeeper.SetEntry(ctx, aptypes.Entry{BaseDenom: d, Denom: d, Decimals: 6, DisplayName: d, CommitEnabled: true, WithdrawEnabled: true, Authority: c.gov()})
 	}
@@ -122,6 +131,10 @@ func (c *Chain) SetupScene(o SceneOpts) {
 	cp.EnableVestNow = true
 	a.CommitmentKeeper.SetParams(ctx, cp)
 
+	if o.BurnEpoch != "" {
+		bp := burnertypes.NewParams(o.BurnEpoch)
+		a.BurnerKeeper.SetParams(ctx, &bp)
+	}
 	if o.LevPerBlock > 0 {
 		lp := a.LeveragelpKeeper.GetParams(ctx)
 		lp.NumberPerBlock = o.LevPerBlock
@@ -130,6 +143,9 @@ func (c *Chain) SetupScene(o SceneOpts) {
 	if o.EdenPerYear != "" {
 		mp := a.MasterchefKeeper.GetParams(ctx)
 		amt, _ := math.NewIntFromString(o.EdenPerYear)
+		if mp.LpIncentives == nil {
+			mp.LpIncentives = &mctypes.IncentiveInfo{EdenAmountPerYear: amt}
+		}
 		mp.LpIncentives.EdenAmountPerYear = amt
 		a.MasterchefKeeper.SetParams(ctx, mp)
 	}
